@@ -1400,10 +1400,11 @@ handshake_login(int dns_fd, int seed)
 
 		send_login(dns_fd, login, 16);
 
-		read = handshake_waitdns(dns_fd, in, sizeof(in), 'l', 'L', i+1);
+		read = handshake_waitdns(dns_fd, in, sizeof(in) - 1, 'l', 'L', i+1);
 
 		if (read > 0) {
 			int netmask;
+			in[read] = 0; /* sscanf below needs a terminated string */
 			if (strncmp("LNAK", in, 4) == 0) {
 				fprintf(stderr, "Bad password\n");
 				return 1;
@@ -1997,7 +1998,7 @@ handshake_switch_codec(int dns_fd, int bits)
 
 		send_handshake_query(dns_fd, sw_codec);
 
-		read = handshake_waitdns(dns_fd, in, sizeof(in), 's', 'S', i+1);
+		read = handshake_waitdns(dns_fd, in, sizeof(in) - 1, 's', 'S', i+1);
 
 		if (read > 0) {
 			if (strncmp("BADLEN", in, 6) == 0) {
@@ -2051,7 +2052,7 @@ handshake_switch_downenc(int dns_fd)
 
 		send_handshake_query(dns_fd, sw_downenc);
 
-		read = handshake_waitdns(dns_fd, in, sizeof(in), 'o', 'O', i+1);
+		read = handshake_waitdns(dns_fd, in, sizeof(in) - 1, 'o', 'O', i+1);
 
 		if (read > 0) {
 			if (strncmp("BADLEN", in, 6) == 0) {
